@@ -93,7 +93,7 @@ func DefaultParams() cdptypes.Params {
 func NewWorld() *World {
 	mkMu.Lock()
 	defer mkMu.Unlock()
-	app.SetSDKConfig()
+	cfgOnce.Do(func() { app.SetSDKConfig() }) // bech32 prefixes must be set before addresses are rendered into genesis JSON
 	_, addrs := app.GeneratePrivKeyAddressPairs(NUsers + 1)
 	users := append([]sdk.AccAddress{}, addrs[:NUsers]...)
 	sort.Slice(users, func(i, j int) bool { return bytes.Compare(users[i], users[j]) < 0 })
@@ -147,6 +147,7 @@ func NewWorld() *World {
 }
 
 var mkMu sync.Mutex
+var cfgOnce sync.Once
 
 // NewWorldBarrier returns a world constructor for kapp.RunSeqs that lets no sequence start before all
 // `workers` worlds exist: building an app touches process-global registries (codecs, sdk config) that
